@@ -38,6 +38,7 @@ type Goal struct {
 	Expect string   // "unsat" normally; "sat" for cover checks
 	Trace  []string
 	Fn     string
+	Run    *FnRun
 }
 
 type Outcome struct {
@@ -69,6 +70,9 @@ type FnRun struct {
 	Unsupp   []string
 	implicit bool // implicit panics are outcomes, not obligations
 	idoms    map[*ssa.BasicBlock]*ssa.BasicBlock
+	LazyDecls    []LogItem
+	lazyDeclared map[string]bool
+	arrSorts     map[string]Sort
 	FnName   string
 }
 
@@ -322,6 +326,7 @@ func (r *FnRun) findLoops() {
 				case *ssa.Store:
 					if a := rootAlloc(x.Addr); a != nil && !a.Heap {
 						li.cells[a] = true
+					} else if fa, ok := x.Addr.(*ssa.FieldAddr); ok && r.markFieldStore(li, fa) {
 					} else {
 						pt, ok := x.Addr.Type().Underlying().(*types.Pointer)
 						if ok {
@@ -373,6 +378,25 @@ func (r *FnRun) loopCallEffect(li *loopInfo, c ssa.CallInstruction) {
 	li.hasCall = true
 }
 
+func (r *FnRun) markFieldStore(li *loopInfo, fa *ssa.FieldAddr) bool {
+	pt, ok := fa.X.Type().Underlying().(*types.Pointer)
+	if !ok {
+		return false
+	}
+	stt, ok := pt.Elem().Underlying().(*types.Struct)
+	if !ok {
+		return false
+	}
+	comps, ok := r.fieldComps(structKey(pt.Elem()), stt, fa.Field)
+	if !ok {
+		return false
+	}
+	for _, c := range comps {
+		li.mems[c.Arr] = true
+	}
+	return true
+}
+
 func (r *FnRun) markMems(li *loopInfo, t types.Type) {
 	if _, ok := r.E.scalarSort(t); ok {
 		n, _ := r.E.memFor(t)
@@ -386,6 +410,8 @@ func (r *FnRun) markMems(li *loopInfo, t types.Type) {
 		}
 	case *types.Array:
 		r.markMems(li, u.Elem())
+	case *types.Basic, *types.Slice, *types.Interface:
+		li.mems["M64"] = true // string / slice / interface headers are words
 	default:
 		li.mems["M64"] = true
 		li.mems["M8"] = true
@@ -415,6 +441,7 @@ func (r *FnRun) addGoalRaw(g *Goal) {
 		g.Expect = "unsat"
 	}
 	g.Fn = r.FnName
+	g.Run = r
 	r.Goals = append(r.Goals, g)
 }
 
@@ -439,6 +466,10 @@ func clauseName(kind string, cl *Clause, idx int) string {
 // block execution
 
 func (r *FnRun) execBlock(b *ssa.BasicBlock, from *ssa.BasicBlock, st *State) {
+	r.execBlockPhi(b, from, st, nil)
+}
+
+func (r *FnRun) execBlockPhi(b *ssa.BasicBlock, from *ssa.BasicBlock, st *State, phiOverride map[*ssa.Phi]Val) {
 	r.paths++
 	if r.paths > r.E.MaxPaths {
 		panic(unsupported("path explosion"))
@@ -467,6 +498,10 @@ func (r *FnRun) execBlock(b *ssa.BasicBlock, from *ssa.BasicBlock, st *State) {
 		phi, ok := ins.(*ssa.Phi)
 		if !ok {
 			break
+		}
+		if phiOverride != nil {
+			phiVals[phi] = phiOverride[phi]
+			continue
 		}
 		phiVals[phi] = r.operand(st, phi.Edges[edge])
 	}
@@ -570,10 +605,20 @@ func (r *FnRun) havocLoop(st *State, li *loopInfo, b *ssa.BasicBlock) {
 	for _, a := range cells {
 		st.cells[a] = r.freshVal(st, "l"+fmt.Sprint(li.ord)+"_"+a.Comment, a.Type().Underlying().(*types.Pointer).Elem())
 	}
-	for _, m := range MemNames {
-		if li.allMem || li.mems[m] || li.hasCall {
-			st.mem[m] = st.declare(r.freshName(m+"_l"+fmt.Sprint(li.ord)), memSort(m))
+	names := allArrays(st)
+	for m := range li.mems {
+		if _, ok := st.mem[m]; !ok {
+			names = append(names, m)
 		}
+	}
+	sort.Strings(names)
+	for _, m := range names {
+		if li.allMem || li.mems[m] || li.hasCall {
+			st.mem[m] = st.declare(r.freshName(m+"_l"+fmt.Sprint(li.ord)), fieldArraySort(r.arrElemSort(m)))
+		}
+	}
+	if li.allMem || li.hasCall {
+		st.epoch++
 	}
 }
 
@@ -751,6 +796,9 @@ func (r *FnRun) execInstr(b *ssa.BasicBlock, idx int, ins ssa.Instruction, st *S
 		case "false":
 			r.execBlock(b.Succs[1], b, st)
 		default:
+			if r.tryMergeIf(b, c, st) {
+				return true
+			}
 			s1 := st.clone()
 			s1.assume(c, "branch")
 			s1.addTrace("b%d: then", b.Index)
@@ -1105,10 +1153,15 @@ func (r *FnRun) fieldAddr(st *State, x *ssa.FieldAddr) Val {
 		return &LocalPtr{A: lp.A, Path: append(append([]int{}, lp.Path...), x.Field)}
 	}
 	t := base.(Term)
-	stt := x.X.Type().Underlying().(*types.Pointer).Elem().Underlying().(*types.Struct)
+	elemT := x.X.Type().Underlying().(*types.Pointer).Elem()
+	stt := elemT.Underlying().(*types.Struct)
 	r.implicitCheck(st, x, "nil", Not(Eq(t, BVInt(0, PtrW, false))))
 	off := r.fieldOffset(stt, x.Field)
-	return Add(t, BVInt(off, PtrW, false))
+	addr := Add(t, BVInt(off, PtrW, false))
+	if _, ok := r.fieldComps("", stt, x.Field); !ok {
+		return addr // nested struct / array: a plain typed pointer
+	}
+	return &FieldPtr{Base: t, S: stt, Key: structKey(elemT), Idx: x.Field, Addr: addr}
 }
 
 func (r *FnRun) fieldOffset(stt *types.Struct, idx int) int64 {
@@ -1170,6 +1223,10 @@ func (r *FnRun) load(st *State, ins ssa.Instruction, p Val, t types.Type) Val {
 	if lp, ok := p.(*LocalPtr); ok {
 		return cloneVal(r.cellGet(st, lp))
 	}
+	if fp, ok := p.(*FieldPtr); ok {
+		r.checkLockedAccess(st, ins, fp.Addr, t, "read")
+		return r.loadField(st, fp)
+	}
 	addr, ok := p.(Term)
 	if !ok {
 		panic(unsupported(fmt.Sprintf("load through %T", p)))
@@ -1220,9 +1277,15 @@ func (r *FnRun) loadAt(st *State, addr Term, t types.Type) Val {
 			r.loadWord(st, Add(addr, BVInt(16, 64, false)), true)}}
 	case *types.Struct:
 		sv := &StructVal{T: t}
+		key := structKey(t)
 		for i := 0; i < u.NumFields(); i++ {
 			sv.N = append(sv.N, u.Field(i).Name())
-			sv.F = append(sv.F, r.loadAt(st, Add(addr, BVInt(r.fieldOffset(u, i), 64, false)), u.Field(i).Type()))
+			fa := Add(addr, BVInt(r.fieldOffset(u, i), 64, false))
+			if _, ok := r.fieldComps(key, u, i); ok {
+				sv.F = append(sv.F, r.loadField(st, &FieldPtr{Base: addr, S: u, Key: key, Idx: i, Addr: fa}))
+			} else {
+				sv.F = append(sv.F, r.loadAt(st, fa, u.Field(i).Type()))
+			}
 		}
 		return sv
 	case *types.Array:
@@ -1261,6 +1324,11 @@ func (r *FnRun) store(st *State, ins ssa.Instruction, p Val, v Val, t types.Type
 		r.cellSet(st, lp, v)
 		return
 	}
+	if fp, ok := p.(*FieldPtr); ok {
+		r.checkLockedAccess(st, ins, fp.Addr, t, "write")
+		r.storeField(st, fp, v, false)
+		return
+	}
 	addr, ok := p.(Term)
 	if !ok {
 		panic(unsupported(fmt.Sprintf("store through %T", p)))
@@ -1297,15 +1365,22 @@ func (r *FnRun) storeAt(st *State, addr Term, t types.Type, v Val, init bool) {
 	case *StructVal:
 		switch u := t.Underlying().(type) {
 		case *types.Struct:
+			key := structKey(t)
 			for i := range x.F {
-				r.storeAt(st, Add(addr, BVInt(r.fieldOffset(u, i), 64, false)), u.Field(i).Type(), x.F[i], init)
+				fa := Add(addr, BVInt(r.fieldOffset(u, i), 64, false))
+				if _, ok := r.fieldComps(key, u, i); ok {
+					r.storeField(st, &FieldPtr{Base: addr, S: u, Key: key, Idx: i, Addr: fa}, x.F[i], init)
+				} else {
+					r.storeAt(st, fa, u.Field(i).Type(), x.F[i], init)
+				}
 			}
 			return
 		default:
 			// string / slice / interface headers: consecutive words
 			for i := range x.F {
 				f := x.F[i].(Term)
-				st.mem["M64"] = Store(st.memArr("M64"), Add(addr, BVInt(int64(8*i), 64, false)), Term{f.S, BV(64, false)})
+				wt := types.Typ[types.Uintptr]
+				r.storeAt(st, Add(addr, BVInt(int64(8*i), 64, false)), wt, Term{f.S, BV(64, false)}, init)
 			}
 			return
 		}
@@ -1314,6 +1389,10 @@ func (r *FnRun) storeAt(st *State, addr Term, t types.Type, v Val, init bool) {
 		for i, e := range x.E {
 			r.storeAt(st, Add(addr, BVInt(int64(i)*es, 64, false)), x.T.Elem(), e, init)
 		}
+		return
+	}
+	if iv, ok := v.(*IfaceVal); ok {
+		r.storeAt(st, addr, t, r.ifaceWords(st, iv), init)
 		return
 	}
 	panic(unsupported(fmt.Sprintf("store of %T", v)))
@@ -1505,8 +1584,8 @@ func (r *FnRun) finish() {
 			}
 			// "at exactly that point": no caller-visible heap write before the panic
 			if c.Opts["panic_writes"] != "allowed" {
-				for _, m := range MemNames {
-					if o.St.mem[m].S != r.Entry.mem[m].S {
+				for _, m := range allArrays(o.St) {
+					if o.St.mem[m].S != r.arr(r.Entry, m).S {
 						r.addGoal(o.St, "panic-before-writes", m, r.frameTerm(o.St, m, nil), nil)
 					}
 				}
